@@ -20,6 +20,7 @@ import z3
 from . import models as models_pkg
 from .core import InfeasiblePath, PathCtx, PathLimit, explore
 from .interp import Interp
+from .loops import LoopDone
 from .rt import ClassInfo
 from .source import Repo, Unsupported
 from .values import BUILTIN_EXCS, ExcInstance, Obj, PyExc, from_model_value
@@ -252,6 +253,8 @@ def run_unit(u: Unit, repo: Repo, timeout_ms=10000, seed=0) -> UnitResult:
             u.fn(h)
         except InfeasiblePath:
             raise
+        except LoopDone:
+            pass
         except Unsupported as e:
             ctx.unsupported = str(e)
         except PyExc as e:
